@@ -9,7 +9,7 @@ import contracts.C09 as C09
 from contracts.common import AGGS, CATS, CDH, Three, World, symlist
 from pyvc import frames, sums, theory_np
 from pyvc.api import UNITS, unit
-from pyvc.values import V
+from pyvc.values import V, tid
 
 LEVEL = "proof"
 BASE = "elexmodel.models.BaseElectionModel.BaseElectionModel"
@@ -30,7 +30,7 @@ def _id_parts(h, n_parts, district):
     parts = []
     for i in range(n_parts):
         p = z3.String(f"id_part{i}")
-        theory_np.SEPFREE[p.get_id()] = {"_"}
+        theory_np.SEPFREE[tid(p)] = {"_"}
         parts.append(p)
     pieces = []
     for i, p in enumerate(parts):
@@ -48,7 +48,7 @@ def _shape_unit(n_parts, district):
         u = w.root.u
         # every feed row outside the baseline has an id of the given shape (V8); the generic one is `idterm`
         h.ctx.assume(z3.Implies(z3.And(w.inFeed(u), z3.Not(w.inData(u))), w.fips(u) == idterm))
-        theory_np.ALIAS[w.fips(u).get_id()] = idterm  # (apply() is only reached for rows of the unexpected frame)
+        theory_np.ALIAS[tid(w.fips(u))] = idterm  # (apply() is only reached for rows of the unexpected frame)
         # apply() sees one id at a time: hand it the shaped term
         ut = "precinct-district" if district else "precinct"
         self = w.handler(geographic_unit_type=ut)
